@@ -232,21 +232,29 @@ def check_slicing(ctx, p, rng, origin):
             full = np.arange(shape[ax])[slice(ix.start, ix.stop, None)]
             if sb[0] != b[full[0]] or sb[-1] != b[full[-1] + 1]:
                 ctx.violation('__getitem__', cfg, 'stepped-slice-hull', idx=str(expr), got=(sb[0], sb[-1]), ref=(b[full[0]], b[full[-1] + 1]))
-    # list index along first axis
-    if shape[0] >= 2 and rng.random() < 0.4:
+    # list index along first axis (entries may be negative, as for NumPy arrays; kept in increasing cell order)
+    if shape[0] >= 2 and rng.random() < 0.6:
         lst = sorted(set(int(i) for i in rng.integers(0, shape[0], size=int(rng.integers(1, 4)))))
+        neg = rng.random() < 0.5
+        if neg:
+            # write some (the last ones, possibly all) entries as negative indices
+            kneg = int(rng.integers(1, len(lst) + 1))
+            lst_given = lst[:len(lst) - kneg] + [i - shape[0] for i in lst[len(lst) - kneg:]]
+        else:
+            lst_given = list(lst)
         ctx.ev('slice-model')
+        lcfg = origin + (';list-with-negative-entries' if neg else ';list')
         try:
-            subl = p[lst]
+            subl = p[lst_given]
             tiling(ctx, subl, 'listindex')
             if not np.array_equal(subl.grid.coord_vectors[0], p.grid.coord_vectors[0][lst]):
-                ctx.violation('__getitem__', origin + ';list', 'grid-points!=selected')
+                ctx.violation('__getitem__', lcfg, 'grid-points!=selected', idx=str(lst_given))
             b = np.asarray(p.cell_boundary_vecs[0])
             sb = np.asarray(subl.cell_boundary_vecs[0])
             if sb[0] != b[lst[0]] or sb[-1] != b[lst[-1] + 1]:
-                ctx.violation('__getitem__', origin + ';list', 'hull')
+                ctx.violation('__getitem__', lcfg, 'hull', idx=str(lst_given), got=(float(sb[0]), float(sb[-1])), ref=(float(b[lst[0]]), float(b[lst[-1] + 1])))
         except Exception as e:
-            ctx.violation('__getitem__', origin + ';list', 'raises:' + type(e).__name__, message=str(e)[:200])
+            ctx.violation('__getitem__', lcfg, 'raises:' + type(e).__name__, message=str(e)[:200], idx=str(lst_given))
 
 
 def check_structure_ops(ctx, p, rng, origin):
@@ -517,6 +525,17 @@ def run_uniform(ctx, hook):
                                 g = odl.uniform_partition_fromgrid(p.grid, min_pt=mn, max_pt=mx)
                                 if not g.approx_equals(p, atol=1e-12 * max(1.0, np.abs(mx).max())):
                                     ctx.violation('uniform_partition_fromgrid', lname, 'differs')
+                                # limits given as {axis: value} dicts, axes counted from the front or (negative keys) from the back
+                                for spelling in ('nonnegative-keys', 'negative-keys'):
+                                    axk = int(rng.integers(nd))
+                                    key = axk if spelling == 'nonnegative-keys' else axk - nd
+                                    for which in ('min_pt', 'max_pt'):
+                                        lim = float(mn[axk]) if which == 'min_pt' else float(mx[axk])
+                                        gd = odl.uniform_partition_fromgrid(p.grid, **{which: {key: lim}})
+                                        got = gd.min_pt[axk] if which == 'min_pt' else gd.max_pt[axk]
+                                        if got != lim:
+                                            ctx.violation('uniform_partition_fromgrid', '%s;dict;%s' % (lname, spelling), 'requested-limit-not-used', which=which, got=float(got), want=lim)
+                                        tiling(ctx, gd, 'fromgrid-dict')
                                 g2 = odl.uniform_partition_fromgrid(p.grid)
                                 tiling(ctx, g2, 'fromgrid-default')
                                 for ax in range(nd):
